@@ -296,6 +296,7 @@ type ReplayFile struct {
 	Scenario *Scenario `json:"scenario"`
 	EventLog []string  `json:"event_log,omitempty"`
 	Crash    string    `json:"crash,omitempty"` // process-level failure (fatal error / panic in a detached goroutine)
+	Race     bool      `json:"race,omitempty"`  // needs the -race build
 }
 
 func findViolation(jd *Judged, prop, rule, sig string) *Violation {
@@ -319,6 +320,13 @@ func replayMode(t *testing.T, job *Job) {
 	}
 	if job.Progress != "" {
 		os.WriteFile(job.Progress, []byte(fmt.Sprintf(`{"seed":%d,"profile":%q,"replay":true}`, rf.Seed, rf.Scenario.Profile)), 0o644)
+	}
+	if rf.Race {
+		// the race detector's shadow state is not deterministic: repeat the same execution until it reports
+		// (the process ends with the report) or the repetition budget is used up
+		for i := 0; i < 400; i++ {
+			Exec(t, rf.Scenario)
+		}
 	}
 	r, jd := Exec(t, rf.Scenario)
 	res := map[string]any{"digest": r.Sim.Digest(), "want_digest": rf.Digest, "reproduced": false}
